@@ -2,7 +2,7 @@ import LdkModel.Driver.Util
 import LdkModel.Model.Onion
 /- C14 driver: the model functions of Model/Onion.lean instantiated with ChaCha20 / HMAC-SHA256
    (`Onion.ldk`) and LDK's key derivations.  Ops (hex for bytes, `-` = empty):
-     build <L> <prng-seed> <assoc-data> <n> (<shared-secret> <payload>)*   → <hop_data> <hmac> | err
+     build <L|std> <prng-seed> <assoc-data> <n> (<shared-secret> <payload>)*   → <hop_data> <hmac> | err
      peel <shared-secret> <assoc-data> <hmac> <hop_data>                   → fwd … | final … | err <Kind>
      failbuild <shared-secret> <code> <data>                               → <packet>
      failwrap <shared-secret> <packet>                                     → <packet>
@@ -82,7 +82,7 @@ def c14 : Drv where
     | "build" :: l :: seed :: ad :: n :: rest =>
       let hops := (pairsOf rest).map fun (ss, p) => hopOfSecret (unhex ss) (unhex p)
       if hops.length ≠ nat! n then ((), "bad-op") else
-      match build ldk (unhex ad) (noiseOfSeed ldk (unhex seed) (nat! l)) hops with
+      match build ldk (unhex ad) (noiseOfSeed ldk (unhex seed) (if l == "std" then ONION_DATA_LEN else nat! l)) hops with
       | none => ((), "err")
       | some (d, h) => ((), s!"{hex d} {hex h}")
     | ["peel", ss, ad, h, d] =>
